@@ -713,6 +713,72 @@ impl NetcodeServer {
     }
 }
 
+#[cfg(feature = "verif")]
+impl Connection {
+    fn verif_dump(&self) -> String {
+        format!(
+            "id={},addr={},state={:?},confirmed={},seq={},recv={},send={},timeout={},expire={},ud={},sk={},rk={},rp{{{}}}",
+            self.client_id,
+            self.addr,
+            self.state,
+            self.confirmed,
+            self.sequence,
+            self.last_packet_received_time.as_nanos(),
+            self.last_packet_send_time.as_nanos(),
+            self.timeout_seconds,
+            self.expire_timestamp,
+            verif_hex(&self.user_data[..8]),
+            verif_hex(&self.send_key[..4]),
+            verif_hex(&self.receive_key[..4]),
+            self.replay_protection.verif_dump()
+        )
+    }
+}
+
+#[cfg(feature = "verif")]
+fn verif_hex(b: &[u8]) -> String {
+    b.iter().map(|x| format!("{:02x}", x)).collect()
+}
+
+#[cfg(feature = "verif")]
+impl NetcodeServer {
+    /// The server's private challenge key (verification hook, read-only).
+    pub fn verif_challenge_key(&self) -> [u8; NETCODE_KEY_BYTES] {
+        self.challenge_key
+    }
+
+    /// Canonical read-only dump of the server state (verification hook).
+    /// Pending clients are sorted by address; token entries are listed in slot order.
+    pub fn verif_dump(&self) -> String {
+        let slots: Vec<String> = self
+            .clients
+            .iter()
+            .enumerate()
+            .filter_map(|(i, c)| c.as_ref().map(|c| format!("{}:{{{}}}", i, c.verif_dump())))
+            .collect();
+        let mut pending: Vec<(String, String)> = self.pending_clients.iter().map(|(a, c)| (a.to_string(), c.verif_dump())).collect();
+        pending.sort();
+        let pending: Vec<String> = pending.into_iter().map(|(_, d)| format!("{{{}}}", d)).collect();
+        let entries: Vec<String> = self
+            .connect_token_entries
+            .iter()
+            .enumerate()
+            .filter_map(|(i, e)| e.as_ref().map(|e| format!("{}:{}@{}#{}", i, e.address, e.time.as_nanos(), verif_hex(&e.mac[..4]))))
+            .collect();
+        format!(
+            "now={} max={} nslots={} cseq={} gseq={} slots=[{}] pending=[{}] entries=[{}]",
+            self.current_time.as_nanos(),
+            self.max_clients,
+            self.clients.len(),
+            self.challenge_sequence,
+            self.global_sequence,
+            slots.join(" "),
+            pending.join(" "),
+            entries.join(" ")
+        )
+    }
+}
+
 fn find_client_mut_by_id(clients: &mut [Option<Connection>], client_id: u64) -> Option<&mut Connection> {
     clients.iter_mut().flatten().find(|c| c.client_id == client_id)
 }
